@@ -1,10 +1,13 @@
 #!/bin/bash
-# runs every check of MANIFEST.json in the given tier; prints one line per check
-tier=${1:-quick}
+# runs the checks of MANIFEST.json in the given tier; prints one line per check
+# usage: runall.sh [quick|thorough] [ids...]
+tier=${1:-quick}; shift
+ids=${@:-C01 C02 C03 C04 C05 C06 C07 C08 C09 C10 C11 C12 C13 C14 C15 C16 C17 C18 C19 C20}
 cd "$(dirname "$0")"
-for id in C01 C02 C03 C04 C05 C06 C07 C08 C09 C10 C11 C12 C13 C14 C15 C16 C17 C18 C19 C20; do
+out=${RUNALL_OUT:-/tmp}
+for id in $ids; do
   s=$(date +%s)
-  ./check $id $tier > /tmp/runall_$id.out 2>&1; rc=$?
+  ./check $id $tier > $out/runall_$id.out 2>&1; rc=$?
   e=$(date +%s)
-  echo "$id rc=$rc $((e-s))s viol=$(grep -c '^VIOLATION' /tmp/runall_$id.out) known=$(grep -c '^KNOWN-FINDING' /tmp/runall_$id.out)"
+  echo "$id rc=$rc $((e-s))s viol=$(grep -c '^VIOLATION' $out/runall_$id.out) known=$(grep -c '^KNOWN-FINDING' $out/runall_$id.out)"
 done
